@@ -3,6 +3,7 @@ package quic
 import (
 	"context"
 	"errors"
+	"fmt"
 	"net"
 
 	"github.com/refraction-networking/uquic/internal/protocol"
@@ -58,6 +59,15 @@ func (t *UTransport) dial(ctx context.Context, addr net.Addr, host string, tlsCo
 
 	if err := t.init(t.isSingleUse); err != nil {
 		return nil, err
+	}
+	// [UQUIC] init() runs its body once per Transport: the connection ID generator and the
+	// length by which the Transport cuts the connection ID out of short header packets are
+	// those of the spec the FIRST dial was made with, and every connection of the Transport
+	// has to share that length. A spec with another SrcConnIDLength (another QUICSpec
+	// assigned to the UTransport, or the field edited between two dials) silently got the
+	// first spec's length on the wire. It cannot be honored on this Transport, so refuse it.
+	if t.QUICSpec != nil && t.QUICSpec.InitialPacketSpec.SrcConnIDLength != t.connIDLen {
+		return nil, fmt.Errorf("uquic: invalid QUICSpec: SrcConnIDLength %d, but this Transport was first dialed with source connection IDs of %d bytes and all its connections must share that length; dial through a new UTransport", t.QUICSpec.InitialPacketSpec.SrcConnIDLength, t.connIDLen)
 	}
 	if err := validateConfig(conf); err != nil {
 		return nil, err
